@@ -2,6 +2,8 @@ package gen
 
 import (
 	"go.pennock.tech/tabular"
+	"go.pennock.tech/tabular/properties"
+	"go.pennock.tech/tabular/properties/align"
 )
 
 // Row-building modes: every public route by which a row can join a table.
@@ -27,6 +29,80 @@ type TableSpec struct {
 	Header    []ItemSpec `json:"header,omitempty"`
 	HeaderAt  int        `json:"header_at"` // AddHeaders is issued before row op HeaderAt (len(Rows) = after all rows)
 	Rows      []RowSpec  `json:"rows"`
+	// Props are properties set on the finished table which mean something to ANOTHER renderer than the one under
+	// test, or to nobody (application keys): the renderer under test must not be influenced by them.
+	Props []PropSpec `json:"other_properties,omitempty"`
+}
+
+// PropSpec is one SetProperty call made once the table is complete.
+type PropSpec struct {
+	Owner string `json:"owner"` // table, column, row, cell
+	Col   int    `json:"col,omitempty"`
+	Row   int    `json:"row,omitempty"`
+	Cell  int    `json:"cell,omitempty"`
+	Key   string `json:"key"`
+	Val   string `json:"value"`
+}
+
+// Which library-defined properties may be sprinkled: a check passes the ones its renderer is documented NOT to read.
+const (
+	NoiseSkipable = 1 << iota // properties.Skipable (documented for JSON only)
+	NoiseAlign                // align.PropertyType (documented for text tables and Markdown only)
+)
+
+func (p *PropSpec) key() interface{} {
+	switch p.Key {
+	case "properties.Skipable":
+		return properties.Skipable
+	case "align.PropertyType":
+		return align.PropertyType
+	case "int 0":
+		return 0
+	}
+	return p.Key // an application's own string key
+}
+
+func (p *PropSpec) val() interface{} {
+	switch p.Val {
+	case "true":
+		return true
+	case "false":
+		return false
+	case "align.Left":
+		return align.Left
+	case "align.Center":
+		return align.Center
+	case "align.Right":
+		return align.Right
+	}
+	return p.Val
+}
+
+func (b *Built) applyProps() {
+	if b.spec == nil {
+		return
+	}
+	for i := range b.spec.Props {
+		p := &b.spec.Props[i]
+		switch p.Owner {
+		case "table":
+			b.T.SetProperty(p.key(), p.val())
+		case "column":
+			if p.Col <= b.T.NColumns() {
+				b.T.Column(p.Col).SetProperty(p.key(), p.val())
+			}
+		case "row":
+			if p.Row < len(b.Rows) {
+				b.Rows[p.Row].SetProperty(p.key(), p.val())
+			}
+		case "cell":
+			if p.Row < len(b.Rows) {
+				if cs := b.Rows[p.Row].Cells(); p.Cell < len(cs) {
+					(&cs[p.Cell]).SetProperty(p.key(), p.val())
+				}
+			}
+		}
+	}
 }
 
 // Built is a real table built from a spec, with the handles kept.
@@ -35,6 +111,7 @@ type Built struct {
 	Rows   []*tabular.Row // one per RowSpec (separators included, taken from AllRows)
 	Header []Made
 	Cells  [][]Made
+	spec   *TableSpec
 }
 
 // Build replays the spec's construction history on t (which must be empty)
@@ -67,6 +144,7 @@ func (b *Built) Finalize() {
 		}
 	}
 	b.Rows = rows
+	b.applyProps()
 }
 
 // BuildStaged replays the construction history; after `at` row operations
@@ -93,7 +171,7 @@ func (s *TableSpec) BuildStagedN(t tabular.Table, ats []int, mid func()) *Built 
 			at = a
 		}
 	}
-	b := &Built{T: t, Cells: make([][]Made, len(s.Rows))}
+	b := &Built{T: t, Cells: make([][]Made, len(s.Rows)), spec: s}
 	hdr := func() {
 		if !s.HasHeader {
 			return
@@ -252,6 +330,7 @@ type TableOpts struct {
 	Item             func(r *R) ItemSpec        // body and header item generator
 	HeaderItem       func(r *R, c int) ItemSpec // optional override for header items
 	NoPostAttach     bool                       // restrict to modes that finish the row before attaching it
+	Noise            int                        // NoiseSkipable|NoiseAlign: properties of other renderers that may be set on a third of the tables
 }
 
 // Table draws a random table spec.
@@ -349,5 +428,44 @@ func (r *R) Table(o TableOpts) TableSpec {
 			s.Rows = append(s.Rows, RowSpec{Items: []ItemSpec{it}})
 		}
 	}
+	if o.Noise != 0 && r.Chance(1, 3) {
+		s.Props = r.noise(&s, o.Noise)
+	}
 	return s
+}
+
+// noise draws 1-3 properties that belong to another renderer, or to nobody.
+func (r *R) noise(s *TableSpec, which int) []PropSpec {
+	type kv struct{ k, v string }
+	var pool []kv
+	if which&NoiseSkipable != 0 {
+		pool = append(pool, kv{"properties.Skipable", "true"}, kv{"properties.Skipable", "true"}, kv{"properties.Skipable", "true"}, kv{"properties.Skipable", "false"})
+	}
+	if which&NoiseAlign != 0 {
+		pool = append(pool, kv{"align.PropertyType", "align.Left"}, kv{"align.PropertyType", "align.Center"}, kv{"align.PropertyType", "align.Right"}, kv{"align.PropertyType", "align.Right"})
+	}
+	pool = append(pool, kv{"skipable", "true"}, kv{"type", "align.Right"}, kv{"int 0", "whatever"})
+	ncols := s.NCols()
+	var out []PropSpec
+	for n := r.Range(1, 3); n > 0; n-- {
+		c := pool[r.Intn(len(pool))]
+		p := PropSpec{Key: c.k, Val: c.v, Owner: "column"}
+		switch r.Intn(10) {
+		case 0:
+			p.Owner = "table"
+		case 1:
+			p.Owner = "row"
+			p.Row = r.Intn(len(s.Rows) + 1)
+		case 2:
+			p.Owner = "cell"
+			p.Row = r.Intn(len(s.Rows) + 1)
+			p.Cell = r.Intn(ncols + 1)
+		default:
+			if r.Bool() && ncols > 0 {
+				p.Col = r.Range(1, ncols) // column 0 (kept when this branch is not taken) is the table-wide default
+			}
+		}
+		out = append(out, p)
+	}
+	return out
 }
